@@ -99,6 +99,23 @@ def gen_dataset(rng, nvals=None, ngroups=None, nmin=8, nmax=40, need_both_labels
     return rows
 
 
+def derive_rows(rng, rows):
+    """Same feature rows, other labels and/or another grouping (a second audit of the same X)."""
+    groups = sorted({r[1] for r in rows})
+    for _ in range(50):
+        mode = rng.choice(["groups", "labels", "both"])
+        new = []
+        for (x, g, y) in rows:
+            if mode in ("groups", "both") and rng.random() < 0.5:
+                g = rng.choice(groups)
+            if mode in ("labels", "both") and rng.random() < 0.3:
+                y = 1 - y
+            new.append((x, g, y))
+        if len({r[1] for r in new}) >= 2 and {r[2] for r in new} == {0, 1} and new != list(rows):
+            return new
+    return None
+
+
 def gen_plan(seed, index, tier):
     rng = random.Random(seed)
     rows = gen_dataset(rng)
@@ -118,6 +135,8 @@ def gen_plan(seed, index, tier):
         "clock": [[rng.choice(["fwd", "fwd", "back", "stall"]), rng.choice([1e-3, 1.0, 100.0, 1e6])] for _ in range(80)],
         "stall_rerun": rng.random() < 0.25,
     }
+    # history: an earlier fit of the same estimator object on the same X with other labels/groups
+    plan["prior_rows"] = derive_rows(rng, rows) if (index >= 40 and rng.random() < 0.2) else None
     return plan
 
 
@@ -153,6 +172,17 @@ def fit_once(plan, ctx, stall=False):
     ctx.ties.pos = 0
     ctx.clock.dl.pos = 0
     ctx.clock.force_stall = stall
+    if plan.get("prior_rows"):
+        pr = plan["prior_rows"]
+        with ctx.clock_installed():
+            okp, retp, sitep = ctx.call(eg.fit, X, np.array([r[2] for r in pr]),
+                                        sensitive_features=np.array([f"g{r[1]}" for r in pr]))
+        if not okp:
+            ctx.clock.force_stall = False
+            return okp, retp, sitep, eg, X, y, g
+        ctx.fault("refit_history")
+        if plan["nu"] is None:
+            eg.nu = None  # keep recorded finding F-C19-2 (nu overwritten by fit) out of this check
     with ctx.clock_installed():
         ok, ret, site = ctx.call(eg.fit, X, y, sensitive_features=g)
     ctx.clock.force_stall = False
@@ -192,6 +222,11 @@ def execute(plan, ctx):
     # --- repo constraint index must be the reference's (else: harness inconsistency)
     repo_ids = {index_key(i) for i in eg.lambda_vecs_EG_.index}
     if repo_ids != set(mom.ids):
+        if {(i[0], i[2]) for i in repo_ids} != {(i[0], i[2]) for i in mom.ids}:
+            # the multipliers are not indexed by the groups of the data that was fitted
+            ctx.fail("C08.constraint_groups", f"multipliers are indexed by {sorted(repo_ids)} but the fitted data has the "
+                     f"(event, group) pairs {sorted(mom.ids)}")
+            return
         raise HarnessError(f"constraint index mismatch: repo {sorted(repo_ids)} vs reference {sorted(mom.ids)}")
     # --- 2. certificate
     bi = int(eg.best_iter_)
@@ -251,7 +286,8 @@ def execute(plan, ctx):
     ctx.event("eg_done", gap=gap, best_iter=bi, last_iter=int(eg.last_iter_), n_pred=len(eg.predictors_),
               weights=[float(w[t]) for t in sorted(w.index)], err=err_q, viol=viol, calls=int(eg.n_oracle_calls_))
     ctx.state({"m": plan["moment"], "b": plan["bound_kind"], "lp": plan["lp"], "stop": "conv" if stopped_early else "budget",
-               "calls": min(int(eg.n_oracle_calls_) // 8, 6), "ties": min(ties // 4, 4), "cert": certified})
+               "calls": min(int(eg.n_oracle_calls_) // 8, 6), "ties": min(ties // 4, 4), "cert": certified,
+               "refit": bool(plan.get("prior_rows"))})
     ctx.transition({"m": plan["moment"], "stop": "conv" if stopped_early else "budget", "cert": certified})
 
 
@@ -264,6 +300,8 @@ def shrink_candidates(plan):
         return q
 
     rows = p["rows"]
+    if p.get("prior_rows"):
+        yield mod(prior_rows=None)
     if p.get("clock"):
         yield mod(clock=[])
     if p.get("stall_rerun"):
@@ -271,6 +309,8 @@ def shrink_candidates(plan):
     if any(p["ties"]):
         yield mod(ties=[])
     n = len(rows)
+    if p.get("prior_rows"):
+        n = 0  # keep the two row lists aligned: do not drop rows while an earlier fit is part of the plan
     # drop chunks of rows, then single rows
     for size in (n // 2, n // 4, 2, 1):
         if size < 1:
